@@ -347,6 +347,8 @@ void wwSetBits(word a[], size_t pos, size_t width, register word val)
 	size_t n = pos / B_PER_W;
 	ASSERT(wwIsValid(a, W_OF_B(pos + width)));
 	ASSERT(width <= B_PER_W);
+	if (width == 0)
+		return;
 	// маска
 	if (width < B_PER_W)
 	{
@@ -360,7 +362,7 @@ void wwSetBits(word a[], size_t pos, size_t width, register word val)
 	// биты a[n + 1]
 	if (pos + width > B_PER_W)
 	{
-		a[n + 1] &= mask << pos;
+		a[n + 1] &= ~(mask >> (B_PER_W - pos));
 		a[n + 1] ^= (val & mask) >> (B_PER_W - pos);
 	}
 }
